@@ -11,8 +11,9 @@ from .base import Scripted, make_actuator, run_quiet
 class Run:
     """One real backtest of a world with a script. script: list of (bar, hook, label)."""
 
-    def __init__(self, world, script=(), interval="1min", observe=None, prices=None, record_snapshots=False):
+    def __init__(self, world, script=(), interval="1min", observe=None, prices=None, record_snapshots=False, look_first=False):
         self.world = world
+        self.look_first = look_first
         catalog.AUTO_BEGIN[0] = False
         try:
             ctx = world.build()
@@ -32,6 +33,11 @@ class Run:
             def f(strategy, snapshot):
                 ctx.bar = snapshot.row_id if snapshot is not None else 0
                 ctx.__dict__.pop("_row_cache", None)
+                if self.look_first and snapshot is not None and (ctx.bar + len(labels[0])) % 2 == 0:
+                    # a strategy that LOOKS before it trades: asking every market (and the account) what it is worth changes nothing
+                    for a in ctx.adapters:
+                        a.market.get_market_balance()
+                    strategy.broker.get_account_status(snapshot.prices)
                 for lab in labels:
                     ops = {o.label: o for o in world.alphabet(ctx)}
                     if lab not in ops:
